@@ -87,10 +87,18 @@ Section Machine.
 
   Definition binding_type (t : N) : bool := (t =? pgp_sigtype_subkey_binding) || (t =? pgp_sigtype_subkey_revocation).
 
+  Definition sub_sig_bound (evs : list event) (k : pubkey) (Q : N -> Prop) (sc : sigcore) : Prop :=
+    exists s, subkey_followed_by evs k s /\ s_core s = sc /\ Q (sc_type sc) /\
+              verify_key_sig c P primary k s = Ok tt.
+  Definition is_binding (t : N) : Prop := binding_type t = true.
+  Definition is_pure_binding (t : N) : Prop := t = pgp_sigtype_subkey_binding.
+
   Definition sub_bound (evs : list event) (sk : subkey) : Prop :=
-    exists s, subkey_followed_by evs (sk_key sk) s /\ s_core s = sk_sig sk /\
-              binding_type (sc_type (sk_sig sk)) = true /\
-              verify_key_sig c P primary (sk_key sk) s = Ok tt.
+    sub_sig_bound evs (sk_key sk) is_binding (sk_sig sk) /\
+    match sk_bind sk with
+    | None => True
+    | Some b => sub_sig_bound evs (sk_key sk) is_pure_binding b
+    end.
 
   Lemma id_bound_mono : forall evs more i, id_bound evs i -> id_bound (evs ++ more) i.
   Proof.
@@ -98,11 +106,16 @@ Section Machine.
     exists pre, sigs, (post ++ more). subst evs. rewrite <- app_assoc. simpl. f_equal. f_equal.
     rewrite <- app_assoc. reflexivity.
   Qed.
-  Lemma sub_bound_mono : forall evs more k, sub_bound evs k -> sub_bound (evs ++ more) k.
+  Lemma sub_sig_bound_mono : forall evs more k Q sc, sub_sig_bound evs k Q sc -> sub_sig_bound (evs ++ more) k Q sc.
   Proof.
-    intros evs more k (s & (pre & sec & sigs & post & E) & H). exists s. split; auto.
+    intros evs more k Q sc (s & (pre & sec & sigs & post & E) & H). exists s. split; auto.
     exists pre, sec, sigs, (post ++ more). subst evs. rewrite <- app_assoc. simpl. f_equal. f_equal.
     rewrite <- app_assoc. reflexivity.
+  Qed.
+  Lemma sub_bound_mono : forall evs more k, sub_bound evs k -> sub_bound (evs ++ more) k.
+  Proof.
+    intros evs more k [A B]. split; [now apply sub_sig_bound_mono|].
+    destruct (sk_bind k); auto. now apply sub_sig_bound_mono.
   Qed.
 
   Definition st_inv (done : list event) (st : est) : Prop :=
@@ -115,6 +128,13 @@ Section Machine.
     - eapply Forall_impl; [|exact B]. intros. now apply sub_bound_mono.
   Qed.
 
+  Definition slot_inv (k : pubkey) (sigs : list sigp) (Q : N -> Prop) (o : option sigcore) : Prop :=
+    match o with
+    | None => True
+    | Some sc => exists s1 s s2, sigs = s1 ++ s :: s2 /\ s_core s = sc /\ Q (sc_type sc) /\
+                   verify_key_sig c P primary k s = Ok tt
+    end.
+
   Definition mode_inv (done : list event) (m : mode) : Prop :=
     match m with
     | MTop => True
@@ -125,14 +145,26 @@ Section Machine.
           | Some sc => exists s1 s s2, sigs = s1 ++ s :: s2 /\ s_core s = sc /\
                          is_self_cert pid sc = true /\ verify_uid_sig c P primary name sc = Ok tt
           end
-    | MSub k sg =>
+    | MSub k sg bd =>
         exists pre sec sigs, done = pre ++ EvP (PKey true sec k) :: sig_evs sigs /\
-          match sg with
-          | None => True
-          | Some sc => exists s1 s s2, sigs = s1 ++ s :: s2 /\ s_core s = sc /\
-                         binding_type (sc_type sc) = true /\ verify_key_sig c P primary k s = Ok tt
-          end
+          slot_inv k sigs is_binding sg /\ slot_inv k sigs is_pure_binding bd
     end.
+
+  Lemma slot_inv_snoc : forall k sigs Q o s, slot_inv k sigs Q o -> slot_inv k (sigs ++ [s]) Q o.
+  Proof.
+    intros k sigs Q o s H. destruct o as [sc|]; simpl in *; auto.
+    destruct H as (s1 & s0 & s2 & Es & R). exists s1, s0, (s2 ++ [s]). split; auto.
+    rewrite Es. rewrite <- app_assoc. reflexivity.
+  Qed.
+  Lemma slot_inv_new : forall k sigs (Q : N -> Prop) s, Q (sc_type (s_core s)) -> verify_key_sig c P primary k s = Ok tt ->
+    slot_inv k (sigs ++ [s]) Q (Some (s_core s)).
+  Proof. intros k sigs Q s Hq Hv. simpl. exists sigs, s, []. auto. Qed.
+  Lemma slot_bound : forall pre sec k sigs Q sc, slot_inv k sigs Q (Some sc) ->
+    sub_sig_bound (pre ++ EvP (PKey true sec k) :: sig_evs sigs) k Q sc.
+  Proof.
+    intros pre sec k sigs Q sc (s1 & s & s2 & Es & Ec & Hc & Hv). exists s. repeat split; auto.
+    exists pre, sec, s1, (sig_evs s2). subst sigs. rewrite sig_evs_app. reflexivity.
+  Qed.
 
   Lemma put_identity_Forall : forall (Q : identity -> Prop) i l, Q i -> Forall Q l -> Forall Q (put_identity i l).
   Proof.
@@ -144,7 +176,7 @@ Section Machine.
   Lemma close_inv : forall done st m st', st_inv done st -> mode_inv done m ->
     close_mode st m = Ok st' -> st_inv done st'.
   Proof.
-    intros done st m st' [A B] M H. destruct m as [|name self others|k sg]; simpl in H.
+    intros done st m st' [A B] M H. destruct m as [|name self others|k sg bd]; simpl in H.
     - inversion H; subst. split; auto.
     - destruct self as [sc|]; inversion H; subst; [|split; auto].
       split; auto. simpl. apply put_identity_Forall; auto.
@@ -153,9 +185,10 @@ Section Machine.
       exists pre, s1, (sig_evs s2). subst done sigs. rewrite sig_evs_app. reflexivity.
     - destruct sg as [sc|]; [|discriminate]. inversion H; subst. split; auto. simpl.
       apply Forall_app. split; auto. constructor; auto.
-      destruct M as (pre & sec & sigs & E & s1 & s & s2 & Es & Ec & Hc & Hv).
-      exists s. simpl. repeat split; auto.
-      exists pre, sec, s1, (sig_evs s2). subst done sigs. rewrite sig_evs_app. reflexivity.
+      destruct M as (pre & sec & sigs & E & S1 & S2). subst done.
+      split; simpl.
+      + now apply slot_bound.
+      + destruct bd as [b|]; auto. now apply slot_bound.
   Qed.
 
   Definition next_inv (done : list event) (n : next) : Prop :=
@@ -168,7 +201,7 @@ Section Machine.
   Proof.
     intros done st p I. pose proof (st_inv_mono done [EvP p] st I) as I'.
     destruct p as [sub sec k|id|s|]; simpl.
-    - destruct sub; simpl; auto. split; auto. exists done, sec, []. simpl. split; auto.
+    - destruct sub; simpl; auto. split; auto. exists done, sec, []. simpl. auto.
     - split; auto. exists done, []. simpl. split; auto.
     - destruct (sc_type (s_core s) =? pgp_sigtype_key_revocation); simpl; split; auto.
       all: try (destruct I' as [A B]; split; auto).
@@ -195,13 +228,14 @@ Section Machine.
       else Ok (Cont st (MUid name self (others ++ [s_core s]))).
   Proof. reflexivity. Qed.
 
-  Lemma step_sub_sig : forall st k sg s,
-    step c P primary pid st (MSub k sg) (PSig s) =
+  Lemma step_sub_sig : forall st k sg bd s,
+    step c P primary pid st (MSub k sg bd) (PSig s) =
       if negb (binding_type (sc_type (s_core s))) then Err "subkey signature with wrong type"
       else bind (verify_key_sig c P primary k s) (fun _ =>
-             if sc_type (s_core s) =? pgp_sigtype_subkey_revocation then Ok (Cont st (MSub k (Some (s_core s))))
-             else if should_replace sg (s_core s) then Ok (Cont st (MSub k (Some (s_core s))))
-             else Ok (Cont st (MSub k sg))).
+             if sc_type (s_core s) =? pgp_sigtype_subkey_revocation then Ok (Cont st (MSub k (Some (s_core s)) bd))
+             else if should_replace sg (s_core s)
+                  then Ok (Cont st (MSub k (Some (s_core s)) (if should_replace bd (s_core s) then Some (s_core s) else bd)))
+                  else Ok (Cont st (MSub k sg (if should_replace bd (s_core s) then Some (s_core s) else bd)))).
   Proof. reflexivity. Qed.
 
   Lemma step_inv : forall done st m p n, st_inv done st -> mode_inv done m ->
@@ -210,7 +244,7 @@ Section Machine.
     intros done st m p n I M H.
     destruct (is_sig_packet p) eqn:Ep.
     - destruct p as [| |s|]; try discriminate.
-      destruct m as [|name self others|k sg].
+      destruct m as [|name self others|k sg bd].
       + rewrite step_top in H. injection H as <-. exact (top_step_inv done st (PSig s) I).
       + rewrite step_uid_sig in H. destruct M as (pre & sigs & E & Hs).
         destruct (is_self_cert pid (s_core s)) eqn:Esc.
@@ -223,22 +257,25 @@ Section Machine.
           destruct self as [sc|]; auto.
           destruct Hs as (s1 & s0 & s2 & Es & R). exists s1, s0, (s2 ++ [s]). split; auto.
           rewrite Es. rewrite <- app_assoc. reflexivity.
-      + rewrite step_sub_sig in H. destruct M as (pre & sec & sigs & E & Hs).
+      + rewrite step_sub_sig in H. destruct M as (pre & sec & sigs & E & Hs & Hb).
         destruct (binding_type (sc_type (s_core s))) eqn:Et; simpl negb in H; cbv iota in H; [|discriminate].
         apply bind_ok' in H. destruct H as [u [Ev H]]. destruct u.
-        assert (New : mode_inv (done ++ [EvP (PSig s)]) (MSub k (Some (s_core s)))).
-        { exists pre, sec, (sigs ++ [s]). rewrite E. split; [apply snoc_sig|].
-          exists sigs, s, []. repeat split; auto. }
-        assert (Old : mode_inv (done ++ [EvP (PSig s)]) (MSub k sg)).
-        { exists pre, sec, (sigs ++ [s]). rewrite E. split; [apply snoc_sig|].
-          destruct sg as [sc|]; auto.
-          destruct Hs as (s1 & s0 & s2 & Es & R). exists s1, s0, (s2 ++ [s]). split; auto.
-          rewrite Es. rewrite <- app_assoc. reflexivity. }
-        destruct (sc_type (s_core s) =? pgp_sigtype_subkey_revocation).
-        * inversion H; subst n. split; [now apply st_inv_mono | exact New].
-        * destruct (should_replace sg (s_core s)); inversion H; subst n;
-            (split; [now apply st_inv_mono | auto]).
-    - destruct m as [|name self others|k sg].
+        assert (Sg : forall o, slot_inv k sigs is_binding o ->
+                  slot_inv k (sigs ++ [s]) is_binding o /\ slot_inv k (sigs ++ [s]) is_binding (Some (s_core s))).
+        { intros o Ho. split; [now apply slot_inv_snoc | now apply slot_inv_new]. }
+        assert (Mk : forall sg' bd', slot_inv k (sigs ++ [s]) is_binding sg' -> slot_inv k (sigs ++ [s]) is_pure_binding bd' ->
+                  mode_inv (done ++ [EvP (PSig s)]) (MSub k sg' bd')).
+        { intros sg' bd' A1 A2. exists pre, sec, (sigs ++ [s]). rewrite E. split; [apply snoc_sig | auto]. }
+        destruct (Sg sg Hs) as [Sold Snew].
+        pose proof (slot_inv_snoc k sigs is_pure_binding bd s Hb) as Bold.
+        destruct (sc_type (s_core s) =? pgp_sigtype_subkey_revocation) eqn:Er.
+        * inversion H; subst n. split; [now apply st_inv_mono | now apply Mk].
+        * assert (Bnew : slot_inv k (sigs ++ [s]) is_pure_binding (Some (s_core s))).
+          { apply slot_inv_new; auto. unfold is_pure_binding. unfold binding_type in Et.
+            apply orb_true_iff in Et. destruct Et as [Et|Et]; [now apply N.eqb_eq in Et | congruence]. }
+          destruct (should_replace sg (s_core s)); destruct (should_replace bd (s_core s)); inversion H; subst n;
+            (split; [now apply st_inv_mono | now apply Mk]).
+    - destruct m as [|name self others|k sg bd].
       + rewrite step_top in H. injection H as <-. exact (top_step_inv done st p I).
       + rewrite step_close in H by (discriminate || assumption).
         apply bind_ok' in H. destruct H as [st' [Ec H]]. injection H as <-.
@@ -507,11 +544,34 @@ Theorem subkey_bound : forall c P evs e, read_entity c P evs = Ok e ->
          sig_accepted c P (sk_key sk) (binding_hash_input (e_primary e) (sk_key sk) ++ suffix x) x).
 Proof.
   intros c P evs e R sk Hs. destruct (read_entity_bound _ _ _ _ R) as (_ & _ & _ & _ & B).
-  rewrite Forall_forall in B. destruct (B sk Hs) as (s & U & Ec & T & V). exists s.
+  rewrite Forall_forall in B. destruct (B sk Hs) as ((s & U & Ec & T & V) & _). exists s.
   apply verify_key_sig_inv in V. rewrite Ec in V. destruct V as [V1 V2].
   split; [exact U|]. split; [exact Ec|]. split.
-  { unfold binding_type in T. apply orb_true_iff in T. destruct T as [T|T]; apply N.eqb_eq in T; auto. }
+  { unfold is_binding, binding_type in T. apply orb_true_iff in T. destruct T as [T|T]; apply N.eqb_eq in T; auto. }
   split; [exact V1 | exact V2].
+Qed.
+
+(* the signature whose usage and lifetime a subkey shows (the binding signature kept beside a
+   revocation, F41) has passed the same verification *)
+Theorem subkey_shown_bound : forall c P evs e, read_entity c P evs = Ok e ->
+  forall sk, In sk (e_subkeys e) ->
+    exists s, subkey_followed_by evs (sk_key sk) s /\ s_core s = sk_shown c sk /\
+      (sc_type (sk_shown c sk) = pgp_sigtype_subkey_binding \/ sc_type (sk_shown c sk) = pgp_sigtype_subkey_revocation) /\
+      sig_accepted c P (e_primary e) (binding_hash_input (e_primary e) (sk_key sk) ++ suffix (sk_shown c sk)) (sk_shown c sk).
+Proof.
+  intros c P evs e R sk Hs. destruct (read_entity_bound _ _ _ _ R) as (_ & _ & _ & _ & B).
+  rewrite Forall_forall in B. destruct (B sk Hs) as ((s & U & Ec & T & V) & Bd).
+  assert (Main : exists s, subkey_followed_by evs (sk_key sk) s /\ s_core s = sk_sig sk /\
+      (sc_type (sk_sig sk) = pgp_sigtype_subkey_binding \/ sc_type (sk_sig sk) = pgp_sigtype_subkey_revocation) /\
+      sig_accepted c P (e_primary e) (binding_hash_input (e_primary e) (sk_key sk) ++ suffix (sk_sig sk)) (sk_sig sk)).
+  { exists s. apply verify_key_sig_inv in V. rewrite Ec in V. destruct V as [V1 _].
+    split; [exact U|]. split; [exact Ec|]. split; [|exact V1].
+    unfold is_binding, binding_type in T. apply orb_true_iff in T. destruct T as [T|T]; apply N.eqb_eq in T; auto. }
+  unfold sk_shown. destruct (fix41 c && (sc_type (sk_sig sk) =? pgp_sigtype_subkey_revocation)); [|exact Main].
+  destruct (sk_bind sk) as [b|]; [|exact Main].
+  destruct Bd as (s' & U' & Ec' & T' & V'). exists s'.
+  apply verify_key_sig_inv in V'. rewrite Ec' in V'. destruct V' as [V1 _].
+  split; [exact U'|]. split; [exact Ec'|]. split; [left; exact T' | exact V1].
 Qed.
 
 (* a concrete input meets the hypotheses: a key, a user ID and a certification that the
@@ -856,10 +916,10 @@ Proof.
   destruct (String.eqb e miss); reflexivity.
 Qed.
 
-Definition mode_ok (m : mode) : Prop := match m with MSub k _ => key_ok k | _ => True end.
+Definition mode_ok (m : mode) : Prop := match m with MSub k _ _ => key_ok k | _ => True end.
 
 Lemma close_mode_np : forall st m, np (close_mode st m).
-Proof. intros st m. destruct m as [|n [s|] o|k [s|]]; reflexivity. Qed.
+Proof. intros st m. destruct m as [|n [s|] o|k [s|] b]; reflexivity. Qed.
 
 Lemma top_step_mode_ok : forall st p, packet_ok p ->
   match top_step st p with Cont _ m => mode_ok m | Stop _ => True end.
@@ -877,7 +937,7 @@ Lemma step_np : forall c P primary pid st m p, params_np P -> key_ok primary -> 
 Proof.
   intros c P primary pid st m p HP Hk Hm Hp.
   destruct (is_sig_packet p) eqn:Ep.
-  - destruct p as [| |s|]; try discriminate. destruct m as [|name self others|k sg].
+  - destruct p as [| |s|]; try discriminate. destruct m as [|name self others|k sg bd].
     + rewrite step_top. split; [reflexivity|]. intros n E. injection E as <-. exact (top_step_mode_ok st (PSig s) Hp).
     + rewrite step_uid_sig. destruct (is_self_cert pid (s_core s)).
       * split.
@@ -892,7 +952,7 @@ Proof.
       { intros n E. apply bind_ok' in E. destruct E as [u [_ E]].
         destruct (_ =? _); [injection E as <-; exact Hm|].
         destruct (should_replace sg (s_core s)); injection E as <-; exact Hm. }
-  - destruct m as [|name self others|k sg].
+  - destruct m as [|name self others|k sg bd].
     + rewrite step_top. split; [reflexivity|]. intros n E. injection E as <-. exact (top_step_mode_ok st p Hp).
     + rewrite step_close by (discriminate || assumption). split.
       { apply np_bind; [apply close_mode_np | intros; reflexivity]. }
@@ -1214,9 +1274,9 @@ Proof. intros. unfold identity_info. cbn [i_attrs fix38 fixed]. apply app_nil_r.
 
 Theorem subkey_dates_exact : forall s,
   subkey_sig_attrs fixed s =
-    [(bs "Usage", usage_string (sc_flags (sk_sig s)));
+    [(bs "Usage", usage_string (sc_flags (sk_shown fixed s)));
      (bs "Created", fmt_date_utc (pk_created (sk_key s)));
-     (bs "Expires", match sc_keylife (sk_sig s) with
+     (bs "Expires", match sc_keylife (sk_shown fixed s) with
                     | None => bs "never"
                     | Some 0 => bs "never"
                     | Some l => fmt_date_utc (pk_created (sk_key s) + l)
@@ -1235,12 +1295,25 @@ Proof. vm_compute. reflexivity. Qed.
 (* F39: subkey created 2020-01-01, binding signature renewed on 2020-06-01 *)
 Definition f39_subkey : subkey :=
   mksub (mkpub 1577836800 18 (KECDH oid_x25519 (mkmpi 263 (64 :: repeat 7 32)) [3; 1; 8; 7]))
-        (mksig 24 22 8 [] [0; 0] [] 1590969600 (Some 107740800) None true 12).
+        (mksig 24 22 8 [] [0; 0] [] 1590969600 (Some 107740800) None true 12) None.
 Lemma f39_legacy : subkey_sig_attrs legacy f39_subkey =
   [(bs "Usage", bs "encrypt communications, encrypt storage"); (bs "Created", bs "2020-06-01"); (bs "Expires", bs "2023-06-01")].
 Proof. vm_compute. reflexivity. Qed.
 Lemma f39_fixed : subkey_sig_attrs fixed f39_subkey =
   [(bs "Usage", bs "encrypt communications, encrypt storage"); (bs "Created", bs "2020-01-01"); (bs "Expires", bs "2023-06-01")].
+Proof. vm_compute. reflexivity. Qed.
+
+(* F41: a subkey bound on 2020-01-01 for encryption with a lifetime of three years and revoked later
+   was shown with the attributes of the revocation signature: no usage, never expires *)
+Definition f41_subkey : subkey :=
+  mksub (mkpub 1577836800 18 (KECDH oid_x25519 (mkmpi 263 (64 :: repeat 7 32)) [3; 1; 8; 7]))
+        (mksig 40 22 8 [] [0; 0] [] 1600000000 None None false 0)
+        (Some (mksig 24 22 8 [] [0; 0] [] 1577836800 (Some 94608000) None true 12)).
+Lemma f41_legacy : subkey_sig_attrs legacy f41_subkey =
+  [(bs "Usage", []); (bs "Created", bs "2020-09-13"); (bs "Expires", bs "never")].
+Proof. vm_compute. reflexivity. Qed.
+Lemma f41_fixed : subkey_sig_attrs fixed f41_subkey =
+  [(bs "Usage", bs "encrypt communications, encrypt storage"); (bs "Created", bs "2020-01-01"); (bs "Expires", bs "2022-12-31")].
 Proof. vm_compute. reflexivity. Qed.
 
 (* ------------------------------------------------------------------ *)
